@@ -221,6 +221,54 @@ def adversarial_run(chk, rng, phase=None, forced=None, victim=None, inflight=Non
     return (rec, victim, injected, fails)
 
 
+def bad_contact_runs(chk):
+    ''' The FIRST octets an endpoint receives are a contact header with wrong magic or version, alone or followed in the
+    same stream by perfectly valid traffic (contact header, SESS_INIT, KEEPALIVE) or garbage, in one read or split at
+    every position around the header: the endpoint closes, nothing that follows the bad header is acted on, and no
+    exception escapes. '''
+    import struct
+    out = []
+    good = b'dtn!\x04\x00'
+    node = b'dtn://peer/'
+    init = bytes([7]) + struct.pack('!HQQH', 30, 1000, 100000, len(node)) + node + struct.pack('!I', 0)
+    tails = [b'', good + init, good + init + bytes([4]), good, bytes([4]) * 7, init]
+    bads = [b'dtx!\x04\x00', b'dtn!\x03\x00', b'dtn!\x05\x01', b'\x00' * 6]
+    for victim in ('A', 'B'):
+        for (bidx, bad) in enumerate(bads):
+            for (tidx, tail) in enumerate(tails):
+                for nread in (1 << 30, 6, 7, 1):
+                    if chk.quick() and (bidx + tidx + (nread % 5)) % 2 and tidx != 1:
+                        continue
+                    (ca, cb) = (dict(keepalive_time=0, idle_time=0), dict(keepalive_time=0, idle_time=0))
+                    runner = TC.Runner(cfg_a=ca, cfg_b=cb)
+                    runner.apply(('start', victim))
+                    runner.apply(('inject', victim, bad + tail))
+                    fails = []
+                    for _ in range(200):
+                        sock = runner.sysm.ep[victim].sock
+                        if runner.is_closed(victim) or not sock.inbox:
+                            break
+                        res = runner.apply(('rxpump', victim, nread))
+                        if res is None or not res.get('ran'):
+                            break
+                    hdl = runner.sysm.ep[victim].h
+                    if not runner.is_closed(victim):
+                        fails.append(('C17 / contact header with wrong magic or version did not close the connection',
+                                      '%s bad=%s tail=%d octets nread=%d' % (victim, bad.hex(), len(tail), nread)))
+                    rec = TS.finish(runner, 'bad-contact', dict(victim=victim, phase='fresh', injected=[(bad + tail).hex()], nread=nread))
+                    sigs = [(n, a) for (n, a) in TS.signals(rec, victim)]
+                    states = [str(a[0]) for (n, a) in sigs if n == 'session_state_changed']
+                    if any(st in ('session-negotiating', 'established') for st in states):
+                        fails.append(('C17 / octets behind a rejected contact header were acted on',
+                                      '%s bad=%s nread=%d states %s' % (victim, bad.hex(), nread, states)))
+                    frames = [f['t'] for f in emitted_frames(runner, victim)]
+                    if any(ft in ('init', 'ack', 'seg', 'ka') for ft in frames):
+                        fails.append(('C17 / octets behind a rejected contact header were answered',
+                                      '%s bad=%s nread=%d sent %s' % (victim, bad.hex(), nread, frames)))
+                    out.append((rec, victim, [bad + tail], fails))
+    return out
+
+
 def build(chk):
     out = []
     nruns = 24 if chk.quick() else 600
@@ -241,6 +289,7 @@ def build(chk):
                 res[0].meta['directed'] = True
                 res[0].meta['no_model'] = (fidx % 4 != 0)  # the model is evaluated on a quarter of the directed runs
                 out.append(res)
+    out += bad_contact_runs(chk)
     # the recorded known finding: an unknown message type
     import random
     fixed = random.Random(1709)
@@ -290,4 +339,6 @@ if __name__ == '__main__':
                       'transfer ids, wrong magic/version contact headers), read in 1-, 2-octet or full reads; after each frame the response '
                       'is compared with an independent expectation (MSG_REJECT naming the message type, SESS_TERM, closure, or none for '
                       'in-place messages); exceptions escaping event-loop callbacks are recorded; afterwards both endpoints are drained and '
-                      'the victim\'s own transfers must be delivered or reported; non-trivial = at least one frame injected')
+                      'the victim\'s own transfers must be delivered or reported; a fresh endpoint receiving a wrong-magic/wrong-version contact '
+                      'header alone or followed in the same stream by valid traffic, under four read sizes (must close, act on nothing '
+                      'behind it, let no exception escape); non-trivial = at least one frame injected')
